@@ -102,7 +102,7 @@ def run_property(modname, tier='quick', seed=0, jobs=None, write_ledger=False):
     pid = spec.property_id
     jobs = jobs or min(16, os.cpu_count() or 4)
     ctx = mp.get_context('spawn')
-    inner = max(1, jobs // max(1, len(spec.targets)))
+    inner = jobs if len(spec.targets) <= 4 else max(1, jobs // max(1, len(spec.targets)))
     tasks = [(modname, t, tier, inner) for t in spec.targets]
     btasks = [(modname, i, tier, seed) for i in range(len(spec.bounded))]
     reports, bounded = [], []
@@ -147,9 +147,9 @@ def finish(spec, modname, tier, seed, reports, bounded, t0, write_ledger=False):
             continue
         for oos in r['out_of_subset']:
             undecided.append({'function': r['name'], 'clause': '(path)', 'why': 'out of subset: ' + oos})
-        if not r['obligations']:
+        if not r['obligations'] and not r['out_of_subset']:
             checker_errors.append('zero obligations for %s' % r['name'])
-        if r['feasible_end_paths'] == 0:
+        if r['feasible_end_paths'] == 0 and not r['out_of_subset']:
             checker_errors.append('vacuity: no feasible path reaches the end of %s' % r['name'])
         for o in r['obligations']:
             n_obl += 1
